@@ -65,7 +65,7 @@ Fold(c, k, s) ==
     [] e.e = "wait.begin" -> Fold(c, k + 1, [s EXCEPT !.wb = TRUE])
     [] e.e = "wait.end" ->
          IF On({"C07"}) /\ (s.open # {}) THEN Bad(k, "C07: Wait returned while a started task had not returned")
-         ELSE IF On({"C07"}) /\ (s.exits < 2 * c.n) THEN Bad(k, "C07: Wait returned before every queue and worker goroutine of the lane had left its loop")
+         ELSE IF On({"C07"}) /\ (c.hooks /\ s.exits < 2 * c.n) THEN Bad(k, "C07: Wait returned before every queue and worker goroutine of the lane had left its loop")
          ELSE Fold(c, k + 1, [s EXCEPT !.we = TRUE])
     [] e.e \in ExitPoints -> Fold(c, k + 1, [s EXCEPT !.exits = @ + 1])
     [] e.e = "w.recovered" -> Fold(c, k + 1, [s EXCEPT !.rec = TRUE])
